@@ -44,6 +44,37 @@ theorem C28_length_exact (m : BackendMsg) (h : wfContent m) :
     rw [putNoticeFields_length]; omega
   | emptyQueryResponse => rfl
 
+/-- bytes written for the fields of an ErrorResponse / NoticeResponse: code byte + value + NUL for
+    every field of the map, empty values included -/
+theorem putNoticeFields_length_sum (fs : List (UInt8 × Bytes)) :
+    (putNoticeFields fs).length = (fs.map (fun f => 2 + f.2.length)).sum := by
+  induction fs with
+  | nil => rfl
+  | cons f fs ih =>
+    obtain ⟨k, v⟩ := f
+    simp only [putNoticeFields, List.length_cons, List.length_append, putCString, List.length_nil,
+      List.map_cons, List.sum_cons, ih]
+    omega
+
+/-- ErrorResponse / NoticeResponse: the length the first loop of `encode_notice_or_error` computes
+    is 4 + Σ (2 + |value|) + 1 over ALL fields (empty values included), and the second loop writes
+    exactly Σ (2 + |value|) + 1 bytes — every field that is counted is written -/
+theorem C28_notice_length_sum (fs : List (UInt8 × Bytes)) :
+    lenAsCoded (.errorResponse fs) = 4 + ((fs.map (fun f => 2 + f.2.length)).sum + 1) ∧
+    (payload (.errorResponse fs)).length = (fs.map (fun f => 2 + f.2.length)).sum + 1 ∧
+    lenAsCoded (.noticeResponse fs) = 4 + ((fs.map (fun f => 2 + f.2.length)).sum + 1) ∧
+    (payload (.noticeResponse fs)).length = (fs.map (fun f => 2 + f.2.length)).sum + 1 := by
+  have hp : ∀ m, payload m = putNoticeFields fs ++ [0] →
+      (payload m).length = (fs.map (fun f => 2 + f.2.length)).sum + 1 := by
+    intro m hm
+    rw [hm, List.length_append, putNoticeFields_length_sum]
+    rfl
+  refine ⟨?_, hp _ rfl, ?_, hp _ rfl⟩
+  · simp only [lenAsCoded, noticeLen]
+    rw [putNoticeFields_length, putNoticeFields_length_sum]; omega
+  · simp only [lenAsCoded, noticeLen]
+    rw [putNoticeFields_length, putNoticeFields_length_sum]; omega
+
 /-- frame law: type byte, then a big-endian length that counts itself and the body, then the body -/
 theorem C28_frame_law (m : BackendMsg) (h : wfBackend m) :
     ∃ body, encodeBackend m = tyByte m :: (be32 (4 + body.length) ++ body) ∧
